@@ -112,7 +112,8 @@ func H_C16_effects() {
 	case 2:
 		name += ".yaml"
 	}
-	ndirs := nondetLen("ndirs", 1, 3)
+	vDataMax = vparam("DATAMAX")
+	ndirs := nondetLen("ndirs", 1, vparam("NDIRS"))
 	dirs := []string{"/vfs/etc", "/vfs/var", "/vfs/run"}[:ndirs]
 	last := dirs[ndirs-1]
 	vResetDisk(last, nondetChoice("dir-exists", 2) == 1)
